@@ -197,8 +197,16 @@ func (publisher *Publisher) Places() map[string]*place {
 	if publisher.placesMap == nil {
 		publisher.placesMap = map[string]*place{}
 
+		// Several places can share a key (like "Old Town" and "old-town"). The
+		// first one names the page, so the places are visited in the order of
+		// the document rather than in the random order of a map.
+		places := publisher.doc.Places()
+		placeTags := placesInDocumentOrder(publisher.doc)
+
 		// Get all of the unique place names.
-		for placeTag, node := range publisher.doc.Places() {
+		for _, placeTag := range placeTags {
+			node := places[placeTag]
+
 			// Hidden individuals do not contribute places either.
 			if publisher.options.LivingVisibility == LivingVisibilityHide &&
 				individualForNode(publisher.doc, node).IsLiving() {
@@ -274,4 +282,27 @@ func (publisher *Publisher) Places() map[string]*place {
 	}
 
 	return publisher.placesMap
+}
+
+// placesInDocumentOrder returns the same places as Document.Places() in the
+// order they appear in the document.
+func placesInDocumentOrder(doc *gedcom.Document) []*gedcom.PlaceNode {
+	places := []*gedcom.PlaceNode{}
+
+	var walk func(node gedcom.Node)
+	walk = func(node gedcom.Node) {
+		for _, child := range node.Nodes() {
+			if place, ok := child.(*gedcom.PlaceNode); ok {
+				places = append(places, place)
+			} else {
+				walk(child)
+			}
+		}
+	}
+
+	for _, node := range doc.Nodes() {
+		walk(node)
+	}
+
+	return places
 }
